@@ -39,6 +39,8 @@ inductive GArg where
   | lt (s : String)
   | lit (s : String)
   | assoc (name : String) (t : Ty)
+  /-- `{ N }`: a braced const argument -/
+  | cblock (e : CExpr)
 end
 
 instance : Inhabited Ty := ⟨.never⟩
@@ -95,6 +97,7 @@ def GArg.toks : GArg → Toks
   | .lt s => [s]
   | .lit s => [s]
   | .assoc n t => n :: "=" :: t.toks
+  | .cblock e => "{" :: e.toks ++ ["}"]
 def GArg.toksComma : List GArg → Toks
   | [] => []
   | [a] => a.toks
@@ -150,6 +153,7 @@ def GArg.expandSelf (to : Ty) : GArg → GArg
   | .lt s => .lt s
   | .lit s => .lit s
   | .assoc n t => .assoc n (Ty.expandSelf to t)
+  | .cblock e => .cblock e
 
 def GArg.expandSelfL (to : Ty) : List GArg → List GArg
   | [] => []
@@ -195,6 +199,7 @@ def GArg.mentions (ps : List String) : GArg → Bool
   | .lt _ => false
   | .lit _ => false
   | .assoc _ t => t.mentions ps
+  | .cblock e => (match e with | .ident s => ps.contains (unraw s) | .lit _ => false)
 def GArg.mentionsL (ps : List String) : List GArg → Bool
   | [] => false
   | a :: as => a.mentions ps || GArg.mentionsL ps as
